@@ -694,7 +694,7 @@ func init() {
 			}
 			return 300
 		},
-		Rule:   "seeded histories around one future (bodies: constant, short sleep, throwing, 60 s sleep, a gate builtin that ignores cancellation) with 2-8 Go observer clients issuing random deref / future-done? / future-cancelled? / future-cancel sequences before, during and after completion, recorded at the EVAL boundary and checked against rules R1-R7 (body runs once, derefs agree, status never goes back, done? after any deref, no successful cancel after a normal completion, cancel of a running body succeeds, sticks and cancels the body's context, no deref blocks after delivery); deterministic windows by parking goroutines at the verif hook sites (body between flag and delivery, body finished but unpublished, cancel at entry while the body completes, deref between take and re-deposit, cancel of a body blocked in sleep / in a cancellation-ignoring builtin); all under the race detector; distinct = distinct (body kind, ordered operation/result) shapes",
+		Rule:   "seeded histories around one future (bodies: constant, short sleep, throwing, 60 s sleep, a gate builtin that ignores cancellation) with 2-8 Go observer clients issuing random deref / future-done? / future-cancelled? / future-cancel sequences before, during and after completion, recorded at the EVAL boundary and checked against rules R1-R7 (body runs once, derefs agree, status never goes back, done? after any deref, no successful cancel after a normal completion, cancel of a running body succeeds, sticks and cancels the body's context, no deref blocks after delivery); deterministic windows by parking goroutines at the verif hook sites (body between flag and delivery, body finished but unpublished, cancel at entry while the body completes, deref between take and re-deposit, cancel of a body blocked in sleep / in a cancellation-ignoring builtin); all under the race detector; distinct = distinct (body kind, ordered operation/result) shapes; half of the completing futures are created by an evaluation whose own context is ended after completion; chains of 10-1000 nested futures each dereferencing the next (value and number of body runs)",
 		Assume: []string{"real-time order = return-before-call on one monotonic clock at the client boundary", "which of two overlapping events (completion vs cancel) wins is not prescribed", "a deref that ends with its own caller's deadline is not an outcome"},
 		Finish: func(m *fw.Merged) {
 			m.Floor("futures", 100)
